@@ -135,6 +135,7 @@ class C07:
             if ids:
                 fault = (rng.choice(ids), rng.choice(("eval", "eval", "start", "stop")), rng.randint(1, 2))
         return dict(S=S, others=others, repeat=rng.randint(2, 4), fault=fault, nconc=rng.randint(2, 4), simseed=rng.getrandbits(32),
+                    gctx=1 if random.Random(seed ^ 0x6C7).random() < 0.4 else 0,
                     mix=rng.choice(("copies", "others", "mixed")),
                     clock=dict(seed=rng.getrandbits(32), stall_rate=rng.choice((0.05, 0.3)), stall_us=rng.choice((1000, 10 ** 7)), coarse=rng.choice((0, 1))))
 
@@ -144,6 +145,10 @@ class C07:
         S = dataflow.normalise(case["S"])
         if case.get("fault"):
             S["faults"] = [tuple(case["fault"])]
+        if case.get("gctx"):
+            # wiring, make_executor and run inside a GlobalContext selected on the thread (final state copied back to the
+            # live state after every run, as testing::eval_node / lower() do)
+            S["options"] = dict(S.get("options", {}), gctx=1)
         text = dataflow.emit(S)
         ref = runner.run_fresh(text, san=self.san)
         if not ref.ok:
@@ -164,7 +169,10 @@ class C07:
             srv = runner.Server(runner.ensure_built(self.san))
             try:
                 for o in case.get("others", []):
-                    r = srv.run("NOFORK\n" + dataflow.emit(dataflow.normalise(o)))
+                    o = dataflow.normalise(o)
+                    if case.get("gctx"):
+                        o["options"] = dict(o.get("options", {}), gctx=1)
+                    r = srv.run("NOFORK\n" + dataflow.emit(o))
                     if r.timeout:
                         return Outcome(harness_error="timeout in history scenario", sample=text)
                     stats["history_scenarios"] += 1
@@ -231,7 +239,9 @@ class C07:
                     progs.append(S if i % 2 else others[(i - 1) % len(others)])
             ctext = "mode concurrent\nsimseed %d\n" % case["simseed"]
             for i, p in enumerate(progs):
-                ctext += "=== %d\n" % i + dataflow.emit(p)
+                # (a GlobalContext is a per-thread selection: the concurrent executors run without one)
+                q = dict(p, options={k: x for k, x in p.get("options", {}).items() if k != "gctx"})
+                ctext += "=== %d\n" % i + dataflow.emit(q)
             r = runner.run_fresh(ctext, san=self.san) if fresh else runner.run(ctext, san=self.san, timeout=40)
             if not r.ok:
                 if r.timeout:
